@@ -559,7 +559,7 @@ def run(ctx):
     jid = 0
     skipped_nodriver = set()
 
-    def add(a, b, iters, kind):
+    def add(a, b, iters, kind, fill=0, focus=False):
         nonlocal jid
         rt = route(a, b)
         if rt == "main":
@@ -572,12 +572,12 @@ def run(ctx):
         jid += 1
         # GLINE (in-place writes of Config.Banned) only when neither side nests ConfigMu -> sessionsMu
         gl = rt == "main" and not model.nests_config_before_sessions(a) and not model.nests_config_before_sessions(b)
-        jobs.append({"id": jid, "a": a, "b": b, "iters": iters, "kind": kind, "route": rt, "gline": gl})
+        jobs.append({"id": jid, "a": a, "b": b, "iters": iters, "kind": kind, "route": rt, "gline": gl and not focus, "fill": fill, "focus": focus})
 
     if ctx.replay:
         with open(ctx.replay) as fh:
             rp = json.load(fh)["replay"]
-        add(rp["job"]["a"], rp["job"]["b"], 3000, "replay")
+        add(rp["job"]["a"], rp["job"]["b"], 3000, "replay", rp["job"].get("fill", 0), rp["job"].get("focus", False))
     else:
         for a, b in cand_pairs:
             add(a, b, 400 if quick else 2000, "candidate")
@@ -586,6 +586,16 @@ def run(ctx):
         for a, b in rest:
             if route(a, b) != "main":
                 add(a, b, 60 if quick else 200, "sweep")
+        # the readers of one stream again on a stream that holds far more batches than its cache: the cache
+        # is filled, shrunk and refilled while both sides run
+        for a, b in model.pairs():
+            if route(a, b) == "stream" and any(x.endswith((".Get", ".GetNext")) for x in (a, b)):
+                add(a, b, 1500 if quick else 4000, "sweep", fill=2500)
+        # every operation that can overlap with FSM.Apply again, with the state machine walking ONE session
+        # through its whole life (client and services link) while the other side uses that very session
+        for a, b in model.pairs():
+            if "FSM.Apply" in (a, b) and route(a, b) == "main":
+                add(a, b, 150 if quick else 600, "sweep", focus=True)
         allp = [p for p in rest if route(*p) == "main"]
         rng = random.Random(ctx.seed)
         rng.shuffle(allp)
